@@ -30,7 +30,7 @@ ID = 'C13'
 TITLE = 'COLMAP export then import preserves cameras, poses, features and structure'
 GEN = ['PairId']
 RULE = ('each case = one generated dataset inside COLMAP\'s range: 1..3 cameras over the 11 COLMAP models (integer image '
-        'sizes), optional non-camera sensors, 0..3 rigs forming a forest (rigs on rigs), trajectories on cameras and rigs '
+        'sizes), optional sensors that take no picture (a depth sensor still gets a colmap camera id), 0..3 rigs forming a forest (rigs on rigs), trajectories on cameras and rigs '
         'without double posing, 1..7 images with unique names (sub-directories, spaces, non-ASCII) drawn so that image-id '
         'order differs from name order, some images without pose, one keypoints type (float32, 2/4/6 columns, 0..4 rows, '
         'special values), uint8 descriptors, matches with integer-valued asymmetric index pairs (up to 2^32-1) and 0..5 '
